@@ -15,7 +15,7 @@ RULE = ("(i) all lengths 1..128 x leading zero counts 0..len (8256 structured ca
         "strings for the checksummed decoder derived from valid encodings by substitution (incl. look-alikes 0 O I l), "
         "insertion, deletion, transposition, '1'-prefixing, truncation to 0..5 chars, case flips - each classified by the "
         "independent decoder as badchar|short|mismatch|valid(payload); distinct = distinct (monitor, case) digests"
-        " EXTENSIONS: + carry-aliasing grid for non-alphabet characters (values -58..-1 and 58..115), consumers (WIF / extended key / wallet import / address payload), affixed out-of-range characters, 58^k-1 / 58^k / 58^k+1 and saturated / sparse inputs up to 8 KiB (thorough 128 KiB)")
+        " EXTENSIONS: + carry-aliasing grid for non-alphabet characters (values -58..-1 and 58..115), consumers (WIF / extended key / wallet import / address payload), affixed out-of-range characters, 58^k-1 / 58^k / 58^k+1 and saturated / sparse inputs up to 8 KiB (thorough 128 KiB), request histories of K+3 distinct strings / payloads per harvested threshold K with a second look at the earliest answers")
 LEVEL_TEXT = ("Every encode/decode call is compared with an independent byte-wise long-division codec; the checksummed "
               "decoder is run as a differential against an independent classifier over mutated strings: it must raise for "
               "bad characters, too-short strings and checksum mismatches and return exactly the payload otherwise.")
@@ -351,9 +351,39 @@ def run(ctx):
         judge_check_decoder(ctx, {"s": rb58.encode(three), "tag": "chk-3of4"})
         swapped = p + hash256(p)[3::-1]
         judge_check_decoder(ctx, {"s": rb58.encode(swapped), "tag": "chk-reversed"})
+    # K+3 DISTINCT requests in one process, then a second look at the earliest ones, for every threshold K written down in the
+    # code under test (vpkg.harvest / vpkg.longrun): the answer to a string / payload depends on it alone however many others
+    # were decoded / encoded in between
+    import btc_hd_wallet.helper as h
+    from .. import longrun
+    jobs = [(k, n_, which) for k, n_ in longrun.lengths(ctx, wide=False) for which in ("decode", "encode")]
+    for ji, (k, n_, which) in enumerate(jobs):
+        if not ctx.mine_once(ji + 3) or not longrun.affordable(ctx, "request", n_, budget_quick=90.0, k=k):
+            continue
+        judge_history(ctx, {"which": which, "n": n_, "k": k, "salt": rnd.randrange(0, 256)})
+    ctx.extra["harvested_thresholds"] = longrun.thresholds()
+
+
+def judge_history(ctx, case):
+    import btc_hd_wallet.helper as h
+    from .. import longrun
+    salt = bytes([case["salt"]])
+
+    def payload(j):
+        return b"\x6f" + salt + j.to_bytes(4, "big") + b"\x00\x01"
+    if case["which"] == "decode":
+        return longrun.ask_again(ctx, "history", "C10", "decode_base58_checksum", h.decode_base58_checksum,
+                                 lambda j: (rb58.encode_check(payload(j)), payload(j)), case["n"], case["k"], budget_s=None if ctx.thorough else 100.0,
+                                 extra_case={"salt": case["salt"]})
+    return longrun.ask_again(ctx, "history", "C10", "encode_base58_checksum", h.encode_base58_checksum,
+                             lambda j: (payload(j), rb58.encode_check(payload(j))), case["n"], case["k"], budget_s=None if ctx.thorough else 100.0,
+                                 extra_case={"salt": case["salt"]})
 
 
 def replay(ctx, monitor, case):
+    if monitor == "history":
+        return judge_history(ctx, {"which": "decode" if case["function"].startswith("decode") else "encode", "n": case["n"], "k": case["k"],
+                                   "salt": case.get("salt", 0)})
     if monitor == "consumer":
         case.pop("consumer", None)
         return judge_consumer(ctx, case)
